@@ -165,6 +165,23 @@ func genEcdsa(d *emuCurveDesc, rng *rand.Rand) []*ecdsaCase {
 	mk("s=n(unreduced-zero)", Q, e, r, n, true)
 	mk("r=n(unreduced-zero)", Q, e, n, s, true)
 	mk("r=s=0", Q, e, bi(0), bi(0), true)
+	// r differs from x(R) in one bit while s is consistent with that r: the
+	// group equation holds, only the final comparison can reject
+	for _, bit := range []uint{0, 1, 200} {
+		kk := randNonzero(rng, n)
+		R := c.mul(c.G(), kk)
+		rp := new(big.Int).Mod(R.X, n)
+		rp.SetBit(rp, int(bit), rp.Bit(int(bit))^1)
+		if rp.Sign() == 0 || rp.Cmp(n) >= 0 {
+			continue
+		}
+		sp := new(big.Int).Mul(rp, sk)
+		sp.Add(sp, e).Mul(sp, new(big.Int).ModInverse(kk, n)).Mod(sp, n)
+		if sp.Sign() == 0 {
+			continue
+		}
+		mk(fmt.Sprintf("r=x(R)-with-bit-%d-flipped,s-consistent", bit), Q, e, rp, sp, true)
+	}
 	// public key at infinity with the classic forgery r = x(kG), s = e/k
 	k := randNonzero(rng, n)
 	kG := c.mul(c.G(), k)
